@@ -26,7 +26,7 @@ fn ids(v: &Value) -> Vec<usize> {
 
 /// (kind, rank, uid, line) lists + written order of the real model
 fn observe_model(a2l: &mut A2lFile, kinds: &[&str]) -> (Vec<Vec<ChildObs>>, Vec<(String, String)>) {
-    let module = &mut a2l.project.module[0];
+    let module = &mut a2l.project.module[mi()];
     let lists = kinds.iter().map(|k| observe_list(module, k)).collect();
     let text = a2l.write_to_string();
     (lists, written_children(&text))
@@ -56,7 +56,7 @@ fn replay_one(case: &Value, triple: usize, observed: &mut Map<String, Value>) ->
     }
     let mut a2l = a2lfile::new();
     {
-        let module = &mut a2l.project.module[0];
+        let module = &mut a2l.project.module[mi()];
         for sk in SPEC_KINDS {
             let rk = real_kind(sk, triple);
             for id in ids(&from["lists"][sk]) {
@@ -101,7 +101,7 @@ fn replay_one(case: &Value, triple: usize, observed: &mut Map<String, Value>) ->
     let op = &case["op"];
     let opname = op["op"].as_str().unwrap();
     let res = guarded(|| {
-        let module = &mut a2l.project.module[0];
+        let module = &mut a2l.project.module[mi()];
         match opname {
             "push_new" => push_new(module, real_kind(op["kind"].as_str().unwrap(), triple), &name_of_rank(op["name"].as_u64().unwrap())),
             "merge_in" => {
@@ -252,7 +252,18 @@ fn file_text(children: &[(String, String)], with_version: bool) -> String {
     if with_version {
         t.push_str("ASAP2_VERSION 1 71\n");
     }
-    t.push_str("/begin PROJECT p \"\"\n  /begin MODULE m \"\"\n");
+    t.push_str("/begin PROJECT p \"\"\n");
+    if mi() == 1 {
+        // a MODULE in front that holds elements of the same names in another order, a comment and an unused helper
+        t.push_str("  /begin MODULE decoy \"\"\n");
+        for (k, n) in children.iter().rev() {
+            if k != "#" && LIST_KINDS.contains(&k.as_str()) {
+                t.push_str(&format!("    {}\n", elem_text(k, n)));
+            }
+        }
+        t.push_str("    /* decoy */\n  /end MODULE\n");
+    }
+    t.push_str("  /begin MODULE m \"\"\n");
     for (k, n) in children {
         if k == "#" {
             t.push_str(&format!("    {n}\n"));
@@ -367,7 +378,7 @@ fn record_one(rng: &mut Rng, case: u64, steps: usize, init: usize, extras: bool,
                 let k = *rng.pick(&rec.kinds);
                 let r = rec.next_rank;
                 rec.next_rank += 1;
-                push_new(&mut rec.a2l.project.module[0], k, &name_of_rank(r));
+                push_new(&mut rec.a2l.project.module[mi()], k, &name_of_rank(r));
                 ev.insert("ev".into(), json!("push_new"));
                 ev.insert("kind".into(), json!(k));
                 ev.insert("name".into(), json!(r));
@@ -382,13 +393,19 @@ fn record_one(rng: &mut Rng, case: u64, steps: usize, init: usize, extras: bool,
                 }
                 let t2 = file_text(&ch, true);
                 let (mut other, _) = a2lfile::load_from_string(&t2, None, true).expect("merge file loads");
-                let r = guarded(|| rec.a2l.merge_modules(&mut other));
+                let r = guarded(|| {
+                    if mi() == 0 {
+                        rec.a2l.merge_modules(&mut other)
+                    } else {
+                        rec.a2l.project.module[mi()].merge(&mut other.project.module[mi()])
+                    }
+                });
                 ev.insert("ev".into(), json!("merge"));
                 ev.insert("panic".into(), json!(r.is_err()));
             }
             9 if extras && rng.chance(1, 2) => {
                 // a new child of a kind outside the placement model: USER_RIGHTS or IF_DATA
-                let module = &mut rec.a2l.project.module[0];
+                let module = &mut rec.a2l.project.module[mi()];
                 if module.variant_coding.is_none() && rng.chance(1, 3) {
                     module.variant_coding = Some(a2lfile::VariantCoding::new());
                     ev.insert("ev".into(), json!("push_new"));
@@ -456,7 +473,7 @@ fn record_repeat(case: u64, calls: usize, nchildren: usize, out: &mut Out) -> u6
             let k = rec.kinds[i / 4 % 3];
             let r = rec.next_rank;
             rec.next_rank += 1;
-            push_new(&mut rec.a2l.project.module[0], k, &name_of_rank(r));
+            push_new(&mut rec.a2l.project.module[mi()], k, &name_of_rank(r));
             let mut ev = Map::new();
             ev.insert("ev".into(), json!("push_new"));
             ev.insert("kind".into(), json!(k));
@@ -487,6 +504,7 @@ pub fn record(args: &Args) {
     let repeat = args.num("repeat", 0) as usize;
     let extras = args.num("extras", 0) != 0;
     let sort_prob = args.num("sortprob", 0);
+    MODULE_INDEX.store(args.num("second", 0) as usize, std::sync::atomic::Ordering::Relaxed);
     let mut out = Out::file(args.req("out"));
     let mut rng = Rng::new(seed);
     let mut events = 0;
